@@ -52,6 +52,29 @@ Theorem C17_compute_sound (atol rtol ktol : Q) (a b : obj Q) o : q_orient_comput
 Proof. exact (@orient_compute_sound Q NumQ atol rtol ktol a b o). Qed.
 Print Assumptions C17_compute_sound.
 
+(* 5. completeness of the search (any pardim): compute answers None only if NO signed permutation of the directions
+      passes its test (shapes, control nets within the tolerances, matching bases): non-matching objects are
+      reported as such and matching ones are never missed, whatever the orientation of the copy *)
+Theorem C17_compute_complete (atol rtol ktol : Q) (a b : obj Q) :
+  q_orient_compute atol rtol ktol a b = None ->
+  length (o_bases a) = length (o_bases b) -> o_dim a = o_dim b ->
+  forall o, signed_perm (length (o_bases a)) o ->
+    (let rat := o_rat a || o_rat b in
+     let ca := @norm_weights Q NumQ rat (if o_rat a then o_cps a else if rat then map (fun v => v ++ [1%Q]) (o_cps a) else o_cps a) in
+     let cb := @norm_weights Q NumQ rat (if o_rat b then o_cps b else if rat then map (fun v => v ++ [1%Q]) (o_cps b) else o_cps b) in
+     list_eq_dec_b (oshape o (o_shape b)) (o_shape a) &&
+     @nets_close Q NumQ atol rtol ca (@omap_net Q o (o_shape b) cb) &&
+     forallb (fun i => @basis_matches Q NumQ ktol (nth i (o_bases a) (mkBasis 0 [] 0)) (nth (nth i (o_perm o) 0) (o_bases b) (mkBasis 0 [] 0)) (nth i (o_flip o) false))
+             (seq 0 (length (o_bases a)))) = false.
+Proof. exact (@orient_compute_complete Q NumQ atol rtol ktol a b). Qed.
+Print Assumptions C17_compute_complete.
+
+(* the enumeration itself: every duplicate-free arrangement of 0..n-1 and every sign vector is a candidate *)
+Theorem C17_all_signed_permutations_enumerated n o : signed_perm n o ->
+  In o (flat_map (fun p => map (fun f => mkOrient p f) (@flips n)) (@perms_fuel n (seq 0 n))).
+Proof. exact (all_candidates n o). Qed.
+Print Assumptions C17_all_signed_permutations_enumerated.
+
 (* non-vacuity: a 2 x 3 net against its transposed-and-reversed copy *)
 Example C17_example :
   let bu := q_mkBasis 2 [0; 0; 1; 1]%Q 0 in
